@@ -49,6 +49,23 @@ def spellings(tier):
 
 
 def work(chunk):
+    """both table years are asked the same codes in one process (order given), so state shared between the graders shows"""
+    years, g, codes = chunk
+    G = c14.setup()
+    packs = []
+    for y in years:
+        ages = G['tab'][y]['ages']
+        packs.append(work_year((y, g, codes, [ages[0], 30, 35, 52.5, 70, ages[-1], ages[-1] + 5])))
+    out = packs[0]
+    for p in packs[1:]:
+        out['n'] += p['n']; out['nontrivial'] += p['nontrivial']; out['nviol'] += p['nviol']
+        out['viol'] += p['viol']; out['samples'] += p['samples']
+        for k, v in p['extra'].items():
+            out['extra'][k] = out['extra'].get(k, 0) + v
+    return out
+
+
+def work_year(chunk):
     year, g, codes, ages_req = chunk
     G = c14.setup()
     a = G['athlib']
@@ -127,18 +144,21 @@ def run(tier):
     G = c14.setup()
     chunks = []
     nd = 0
-    for year in (2015, 2023):
-        ages = G['tab'][year]['ages']
-        ages_req = [ages[0], 30, 35, 52.5, 70, ages[-1], ages[-1] + 5]
-        for g in 'mf':
-            D = [str(d) for d in distances(tier, run_rows(G['tab'][year], g))]
-            nd = len(D)
-            n = max(1, len(D) // 4000)
-            for a, b in common.split_range(0, len(D), n):
-                chunks.append((year, g, D[max(0, a - 1):b], ages_req))
-            S = spellings(tier)
-            for a, b in common.split_range(0, len(S), 8):
-                chunks.append((year, g, S[a:b], ages_req))
+    for g in 'mf':
+        ds = set()
+        for year in (2015, 2023):
+            ds.update(distances(tier, run_rows(G['tab'][year], g)))
+        D = [str(d) for d in sorted(ds)]
+        nd = len(D)
+        n = max(1, len(D) // 4000)
+        j = 0
+        for a, b in common.split_range(0, len(D), n):
+            chunks.append(((2015, 2023) if j % 2 == 0 else (2023, 2015), g, D[max(0, a - 1):b]))
+            j += 1
+        S = spellings(tier)
+        for a, b in common.split_range(0, len(S), 8):
+            chunks.append(((2015, 2023) if j % 2 == 0 else (2023, 2015), g, S[a:b]))
+            j += 1
     merge(rep, pmap(work, chunks), part='distances x gender x ages x 2015/2023')
     c = rep.coverage
     c['distances_per_table'] = nd
